@@ -15,6 +15,25 @@ CHECKS = {
    note="Trusted: hook H1 projection of the private tables; TLC; bounded constants (<=4 slots exhaustive; traces use <=5 long strings per run). "
         "Strict-mode disagreement between Heap.tla's actions and the implementation is reported as MODEL-DRIFT, never as a violation.",
    technique="TLA+ spec + TLC exhaustive model checking; trace validation of recorded runs and replay of TLC-generated behaviours"),
+ "C10": dict(
+   level="model_checking", design="§3.2, §5 C10",
+   text="Server.tla models the server's edit operations step by step (patch sources/signatures, rebuild the import graph, affected set on "
+        "the graph the code uses, recheck, overwrite cached errors) over abstract but meaningful contents; TLC checks errs = FreshErrors "
+        "in every reachable state of the bounded model. Bound to the code both ways: TLC-simulated histories are instantiated as .sam texts "
+        "and run on the real ServerState, seeded random histories over free-form texts likewise; ServerTrace.tla judges every recorded edit "
+        "by the property's own oracle (held diagnostics = those of a freshly started server, nothing held for modules without a source).",
+   note="Trusted: hook H2 (recheck set, map domains); ServerState::new as the from-scratch analysis; bounded pools (10 / 155 abstract contents, "
+        "15 free-form templates, 4 module names). Strict-mode disagreement with Server.tla's actions is MODEL-DRIFT, never a violation.",
+   technique="TLA+ spec + TLC exhaustive model checking; replay of TLC-simulated histories and trace validation of random histories on the real server"),
+ "C11": dict(
+   level="model_checking", design="§3.2, §5 C11",
+   text="Server.tla's map-domain invariants (the preconditions of the requests' unwraps) are model-checked over all histories of the bounded "
+        "model; the real server is driven through TLC-simulated and random histories with long identifiers at every site and 1/2/100 "
+        "modules marked per GC slice, and after every edit every request kind is issued at a grid of positions under catch_unwind; "
+        "ServerTrace.tla accepts a trace iff nothing panicked (no edit, request, or rendering of held diagnostics).",
+   note="Requests are issued at samlang_services' API (the LSP glue is not executed). Sweep work unit stays at production value; incremental "
+        "sweeping itself is C17's. Positions are sampled in quick tier, exhaustive per column in thorough tier.",
+   technique="TLA+ spec + TLC model checking of request preconditions; trace validation of edit/query histories recorded from the real server"),
 }
 
 NOT_YET = "machinery for this property is not built yet in this round (see DESIGN.md §9 build order)"
